@@ -159,7 +159,9 @@ def check_design(ctx, d, rng, label):
             ctx.violation('critical-path-none', 'no critical path returned although max_length = %r' % ml, replay)
             ok = False
         # max_freq is its documented function of max_length
-        for tech, ff in ((130, None), (65, None), (45, 100.0)):
+        zero_ff = (rng.choice([130, 65, 45]), rng.choice([0, 0.0]))
+        # (ideal registers are only asked about when there is logic: a clock period of 0 has no frequency)
+        for tech, ff in ((130, None), (65, None), (45, 100.0)) + ((zero_ff,) if ml > 0 else ()):
             got = ta.max_freq(tech_in_nm=tech, ffoverhead=ff)
             sf = 130.0 / tech
             period = sf * (ml + 189 + 194) if ff is None else sf * ml + ff
@@ -322,6 +324,22 @@ def check_design(ctx, d, rng, label):
                 ctx.violation('paths-multi-raises', 'paths(%r, %r) raised %s: %s' % (
                     [w.name for w in ms], [w.name for w in md_], type(e).__name__, str(e)[:100]), replay)
                 ok = False
+    # no sources or no destinations asked for (an empty list, tuple or set): no pair, no path
+    if ok and srcs and dsts:
+        empty_ = rng.choice([[], (), set()])
+        for what_, args_ in (('src=%r' % (empty_,), (empty_, rng.choice(dsts))), ('dst=%r' % (empty_,), (rng.choice(srcs), empty_)),
+                             ('src=%r, dst=%r' % (empty_, empty_), (empty_, empty_))):
+            try:
+                res_ = analysis.paths(args_[0], args_[1], block=blk)
+                n_paths = sum(len(ps_) for d_ in res_.values() for ps_ in d_.values())
+            except Exception as e:  # noqa
+                n_paths = '%s raised' % type(e).__name__
+            ctx.count('paths-empty-request', what_.split('=')[0])
+            if n_paths != 0:
+                ctx.violation('paths-empty-request', 'paths(%s) (the other side a single wire) reports %s paths; no pair was asked for' % (what_, n_paths),
+                              dict(replay, request=what_))
+                ok = False
+                break
     return ok
 
 
